@@ -32,6 +32,8 @@ structure St where
   pend : List Pend := []
   /-- keys whose first use was a real (barrier) race: the number of native keys created is not determined -/
   raced : List Nat := []
+  /-- `p_uthread_shutdown` has been called: no further op is accepted -/
+  shut : Bool := false
 
 /-- a native key is shown as `<PUThreadKey id>.<index among that key's native keys>` (`?` for a raced key) -/
 def showN (raced : List Nat) (s : State) (n : Nat) : String :=
@@ -172,8 +174,30 @@ def step (s : St) (toks : List String) : IO (St × Bool) := do
         ++ (if a = b then "" else " SPECDIFF " ++ b))
       return ({ s with m := m', sp := sp.1, pend := pend', raced := raced' }, false)
   let m := s.m
+  if s.shut ∧ toks ≠ ["reset"] then bad else
   match toks with
   | ["reset"] => IO.println "ok"; return ({}, false)
+  | [a, "shutdown"] =>
+    -- the end of a history (not an event of the machine): `PV.UThread.shutdown`, theorem `init_shutdown_neutral_threads`
+    match a.toNat? with
+    | none => bad
+    | some a =>
+      if ¬ s.pend.isEmpty then bad else
+      match shutdown m a with
+      | .error .notEnabled => bad
+      | .error e => IO.println (faultText e); return (s, true)
+      | .ok m' =>
+        let r := shutdownResolve m
+        let sh := showN s.raced r.1 r.2
+        let nat := (if (m.key 0).published.isNone then ["kc" ++ sh] else []) ++ ["gs" ++ sh] ++
+          (if r.1.tls a r.2 ≠ 0 then ["ss" ++ sh ++ ":0"] else []) ++ (if localFreeDeletesKey then ["kd" ++ sh] else [])
+        let o : PV.UThreadSpec.Obs := { live := PV.UThreadSpec.liveOf m', freed := m'.freeLog.drop m.freeLog.length }
+        let spr := PV.UThreadSpec.shutdown s.sp a
+        let os : PV.UThreadSpec.Obs := { live := spr.1.live, freed := spr.2.freed }
+        let x := apiPart "none" o
+        let y := apiPart "none" os
+        IO.println (x ++ " ob=" ++ toString (otherBlocks m') ++ " N=" ++ ",".intercalate nat ++ (if x = y then "" else " SPECDIFF " ++ y))
+        return ({ s with m := m', sp := spr.1, shut := true }, false)
   | ["spawn"] => fin [.spawn] "spawn"
   | ["race", k, t1, v1, t2, v2] =>
     match k.toNat?, t1.toNat?, v1.toNat?, t2.toNat?, v2.toNat? with
